@@ -324,6 +324,9 @@ class _FragGen:
             return ["n", "Product", [["t", [["i", -1], e(d + 1)]]]]
         if o == "pow":
             return ["n", "Power", [e(d + 1), ["i", r.choice([0, 1, 2, 2])]]]
+        if o == "gpow" and r.random() < 0.15:
+            # (negative finite values make the evaluator go complex: not compared; -inf does not)
+            return ["n", "Power", [self.var(), ["f", "0.5"]]]
         if o == "gpow":
             base = ["n", "Sum", [["t", [["n", "Call", [["n", "Variable", [["s", "fabs"]]],
                                                        ["t", [e(d + 1)]]]], ["f", "0.5"]]]]]
@@ -514,7 +517,7 @@ def generate(seed, tier):
         if kind == "float" and r.random() < 0.15:
             # one input is not-a-number: every ordering comparison with it is false,
             # in C as in the evaluator
-            env[r.choice(FLT_VARS)] = ["f", "nan"]
+            env[r.choice(FLT_VARS)] = ["f", r.choice(["nan", "nan", "inf", "-inf"])]
     prefix = r.choice(["_cse", "_cse", "_cse", "tmp_", "_c"])
     mappers = [{"m": 0, "parent": None, "kind": "mixin" if mixin else "root",
                 "reverse": r.random() < 0.5, "prefix": prefix, "mapped": []}]
@@ -727,7 +730,8 @@ def _make_ref_evaluator():
             if isinstance(v, int) and abs(v) >= 2**31:
                 # also: arithmetic on integer *literals* is done in C's 32-bit int
                 self.bad.append("int-range")
-            elif isinstance(v, float) and v == v and not (abs(v) < self.maxabs):
+            elif isinstance(v, float) and v == v and abs(v) != math.inf \
+                    and not (abs(v) < self.maxabs):
                 self.bad.append("float-range")
             elif isinstance(v, complex):
                 if not self.allow_complex:
@@ -1270,7 +1274,8 @@ def _build_post(ms, kind, env, fenv, Ref, p, probes, cfloat=False):
         body = []
         for v, val in sorted(env.items()):
             if kind in ("float", "cplx"):
-                lit = "NAN" if val != val else repr(val)
+                lit = "NAN" if val != val else "INFINITY" if val == math.inf else \
+                    "-INFINITY" if val == -math.inf else repr(val)
                 if cfloat:
                     body.append(f"  std::complex<float> {v} = std::complex<float>({lit}, 0.0);")
                 else:
@@ -1501,8 +1506,8 @@ def _compare(out, payloads, index, results):
             else:
                 res["probes"]["float_values_compared"] = res["probes"].get("float_values_compared", 0) + 1
                 gv = float(g)
-                if gv != gv and want != want:
-                    continue                       # not-a-number on both sides
+                if (gv != gv and want != want) or gv == want:
+                    continue                       # not-a-number on both sides; equal infinities
                 if not (abs(gv - want) <= 1e-7 * max(1.0, abs(want))) and res["violation"] is None:
                     res["violation"] = {"cls": "C14/value-mismatch/float", "detail": {
                         "op": opi, "c_text": fn["texts"][j], "c_value": gv, "evaluator": want,
